@@ -254,6 +254,21 @@ pub fn gen_form(g: &mut G, max_data: usize, adversarial: bool) -> FormSpec {
         };
         files.push((name, data, filename, mime));
     }
+    // (no draw) names that hold a percent sign followed by two hex digits: they are names, not encodings - what the
+    // receiver reads between the quotes is what the caller wrote
+    for (name, v) in texts.iter_mut() {
+        if name == "n=1" && v.len() % 2 == 0 {
+            *name = "redirect%2Fto".into();
+        }
+    }
+    for (name, data, filename, _) in files.iter_mut() {
+        if filename.as_deref() == Some("noext") && data.len() % 2 == 0 {
+            *filename = Some("report%20final.txt".into());
+        }
+        if name == "a'b" && data.len() % 3 == 0 {
+            *name = "100%25".into();
+        }
+    }
     FormSpec { texts, files }
 }
 
@@ -330,7 +345,15 @@ pub fn gen_body(g: &mut G, max: usize) -> BodySpec {
             } else {
                 0
             };
-            BodySpec::File(data, pre)
+            // (no draw) a file whose reads come short before its end (a sysfs binary attribute hands out one page per
+            // read, as FUSE and network file systems may): the same octets must go out
+            match short_read_file() {
+                Some((_, content)) if data.len() % 5 == 2 => {
+                    g.probe("file-whose-reads-come-short-before-its-end");
+                    BodySpec::File(content.to_vec(), pre.min(content.len()))
+                }
+                _ => BodySpec::File(data, pre),
+            }
         }
         4 => BodySpec::Json(gen_json(g, 0)),
         5 => BodySpec::JsonStreaming(gen_json(g, 0)),
@@ -558,7 +581,7 @@ impl ReqPlan {
             BodySpec::Bytes(b) if self.headers.iter().any(|(n, _, _)| n.eq_ignore_ascii_case("content-type")) => rb.text("a body the caller thought better of").bytes(b.clone()).send(),
             BodySpec::Bytes(b) => rb.bytes(b.clone()).send(),
             BodySpec::File(data, pre) => {
-                let mut f = temp_file(data);
+                let mut f = open_file_body(data);
                 if *pre > 0 {
                     use std::io::Read;
                     let mut sink = vec![0u8; *pre];
@@ -628,7 +651,7 @@ impl ReqPlan {
             BodySpec::Text(s) => prepare_and_send(rb.text(s.clone()), times),
             BodySpec::Bytes(b) => prepare_and_send(rb.bytes(b.clone()), times),
             BodySpec::File(data, pre) => {
-                let mut f = temp_file(data);
+                let mut f = open_file_body(data);
                 if *pre > 0 {
                     use std::io::Read;
                     let mut sink = vec![0u8; *pre];
@@ -675,6 +698,43 @@ impl ReqPlan {
             BodySpec::Custom(c) => prepare_and_send(rb.body(ScriptedBody { spec: c.clone(), writes_done: 0 }), times),
         }
     }
+}
+
+/// A file of this machine that is longer than one read returns (checked once: a read into 8 KiB must come back short
+/// and non-empty before the end), with its content; None where there is none - the dimension is then simply absent
+/// and its probe stays at zero.
+pub fn short_read_file() -> Option<(&'static str, &'static [u8])> {
+    use std::io::Read;
+    static F: std::sync::OnceLock<Option<(&'static str, Vec<u8>)>> = std::sync::OnceLock::new();
+    F.get_or_init(|| {
+        for path in ["/sys/firmware/acpi/tables/DSDT", "/sys/firmware/acpi/tables/SSDT", "/sys/firmware/dmi/tables/DMI"] {
+            let Ok(content) = std::fs::read(path) else { continue };
+            if content.len() < 2 || content.len() > 1 << 20 {
+                continue;
+            }
+            let Ok(mut f) = std::fs::File::open(path) else { continue };
+            let mut buf = vec![0u8; content.len().max(8192)];
+            match f.read(&mut buf) {
+                Ok(n) if n > 0 && n < content.len() => return Some((path, content)),
+                _ => continue,
+            }
+        }
+        None
+    })
+    .as_ref()
+    .map(|(p, c)| (*p, &c[..]))
+}
+
+/// The file a `BodySpec::File` stands for: a scratch file with these octets, or the short-reading file itself.
+pub fn open_file_body(data: &[u8]) -> std::fs::File {
+    if let Some((path, content)) = short_read_file() {
+        if content == data {
+            if let Ok(f) = std::fs::File::open(path) {
+                return f;
+            }
+        }
+    }
+    temp_file(data)
 }
 
 pub fn temp_file(data: &[u8]) -> std::fs::File {
